@@ -63,12 +63,19 @@ class C13(Prop):
         add(['late', v, v], 2, 0.5, ['raise', 2])
         add(['hang', 'hang', v], 0, 0.5, ['all'])
         add([v, v, v, v, v], 4, 0.5, ['close', 5])
+        # hangs of a player that made its process immune to SIGTERM (graceful-shutdown handler / SIG_IGN): same behaviour
+        # for the model, but only a real SIGKILL gets rid of the worker - first, middle + consecutive, last, early end
+        hi, hh = 'hangTermIgnored', 'hangTermHandled'
+        add([hi, v, v], 2, 0.5, ['all'])
+        add([v, hh, hi, v], 3, 0.5, ['all'])
+        add([v, v, hh], 2, 0.5, ['all'])
+        add([v, hi, v, v], 2, 0.5, rng.choice([['close', 2], ['raise', 2]]))
         n = 0 if tier == 'quick' else 184
-        weights = [v] * 5 + ['bare', 'playerRaises', 'exit', 'exit', 'hang', 'hang', 'late']
+        weights = [v] * 5 + ['bare', 'playerRaises', 'exit', 'exit', 'hang', 'hangTermIgnored', 'hangTermHandled', 'late']
         for _ in range(n):
             m = rng.randint(2, 8)
             kinds = [rng.choice(weights) for _ in range(m)]
-            while sum(k in ('hang', 'late') for k in kinds) > 3:
+            while sum(k in ('hang', 'late', 'hangTermIgnored', 'hangTermHandled') for k in kinds) > 3:
                 kinds[rng.randrange(m)] = v
             c = rng.random()
             consume = ['all'] if c < .4 else ['close', rng.randint(0, m)] if c < .7 else ['raise', rng.randint(1, m)]
@@ -168,6 +175,8 @@ class C13(Prop):
         n = len(case['ids'])
         for pos, i in enumerate(case['ids']):
             k = case['beh'][i]['k']
+            if case['beh'][i].get('sigterm'):
+                out.append('hang:sigterm-' + case['beh'][i]['sigterm'])
             if k in FAULTY:
                 out.append('%s@%s' % (k, 'first' if pos == 0 else 'last' if pos == n - 1 else 'middle'))
                 if pos and case['beh'][case['ids'][pos - 1]]['k'] in FAULTY:
@@ -184,7 +193,7 @@ class C13(Prop):
         for _ in range(12):
             m = rng.randint(2, 4)
             kinds = ['verdict'] * m
-            kinds[rng.randrange(m)] = rng.choice(['hang', 'exit', 'late', 'verdict'])
+            kinds[rng.randrange(m)] = rng.choice(['hang', 'hangTermIgnored', 'hangTermHandled', 'exit', 'late', 'verdict'])
             consume = rng.choice([['all'], ['close', rng.randint(0, m)], ['raise', rng.randint(1, m)]])
             out.append(mk_case(['r%d' % i for i in range(m)], kinds, 'ded', False, rng.randint(1, 3), 0.5, consume=consume, rng=rng))
         return out
